@@ -73,3 +73,13 @@ Definition unguarded_witness : life :=
               (do_start {| no_trace := false; nplugins := 2 |} (life0 5 6)).
 Theorem unguarded_refuted : started unguarded_witness = true /\ attempted unguarded_witness = [SHooks; SFlush; SPoll; SPlugin 0].
 Proof. vm_compute. auto. Qed.
+
+(* restoring the saved hooks unconditionally (the code before its repair) is refuted: with tracing disabled the
+   host's own hooks 5 and 6 are overwritten by shutdown *)
+Definition shutdown_always_restores (l : life) : life :=
+  {| sys_hook := saved_sys l; thr_hook := saved_thr l; started := false; saved_sys := saved_sys l; saved_thr := saved_thr l;
+     hooks_installed := false; inert := true; polling := false; attempted := [SHooks; SFlush; SPoll] |}.
+Definition notrace_clobber_witness : life :=
+  shutdown_always_restores (do_start {| no_trace := true; nplugins := 0 |} (life0 5 6)).
+Theorem notrace_clobber_refuted : sys_hook notrace_clobber_witness = 0%nat /\ thr_hook notrace_clobber_witness = 0%nat.
+Proof. vm_compute. auto. Qed.
